@@ -428,7 +428,13 @@ class Exec:
         raise Unsupported(f"membership in {container!r}")
 
     def occurs(self, m, s):
-        """substring test: exists p. forall j < |m|. s[p+j] == m[j]"""
+        """substring test m in s: the predicate occ over the two views (Python's str.__contains__)."""
+        if m.delta != 0 or s.delta != 0:
+            raise Unsupported("substring test over shifted views")
+        return specz3.occ(m.arr, m.start, m.n, s.arr, s.start, s.n)
+
+    def occurs_expanded(self, m, s):
+        """exists p. forall j < |m|. s[p+j] == m[j]"""
         k = lit(m.n)
         p = fresh("p")
         if k is not None and k <= 12:
@@ -494,11 +500,8 @@ class Exec:
             n = toint(n)
             k = lit(s.n)
             if k == 1:
-                cnt = z3.If(n > 0, n, 0)
-                out = fresh_seq("rep", s.kind, s.elem, n=cnt)
-                v = s.at(0)
-                st.assume(out.forall(lambda x: x == v))
-                return out
+                cnt = z3.simplify(z3.If(n > 0, n, 0))
+                return Seq(s.kind, s.elem, z3.K(I, s.at(0)), cnt)          # one value repeated: a constant array (no fresh symbol)
             if k == 0:
                 return s
             raise Unsupported("repetition of a sequence longer than 1")
@@ -533,6 +536,11 @@ class Exec:
         self._defer = getattr(self, "_defer", [])
         self._defer += [self_ax, ax2]
         return out
+
+    def use_str_axioms(self):
+        if not getattr(self, "_str_on", False):
+            self._str_on = True
+            self.axioms += specz3.str_axioms()
 
     def flush_defer(self, st):
         for a in getattr(self, "_defer", []):
@@ -669,6 +677,9 @@ class Exec:
         return z3.If(x < 0, 0, z3.If(x > n, n, x))
 
     def reverse(self, s, st):
+        if s.kind == "str" and s.delta == 0:
+            self.use_str_axioms()
+            return Seq("str", "char", specz3.rev(s.arr, s.start, s.n), s.n)
         out = fresh_seq("rev", s.kind, s.elem, n=s.n, dtype=s.dtype)
         i = fresh("q")
         st.assume(z3.ForAll([i], z3.Implies(z3.And(0 <= i, i < s.n), out.arr[i] == s.at(s.n - 1 - i)), patterns=[out.arr[i]]))
